@@ -73,6 +73,10 @@ def base_message(refs=None, aux=None):
     b.data.uuid = ub("dbA")
     b.data.size = 4
     a.proxies.add().uuid = ub("pxA")
+    a.proxies.add().uuid = U(30).bytes               # a proxy and a symbol that nothing else in the file refers to
+    y = a.symbols.add()
+    y.uuid = U(31).bytes
+    y.name = "loose"
     y = a.symbols.add()
     y.uuid = ub("syA1")
     y.name = "one"
@@ -336,6 +340,26 @@ def aux_refs(level: int, shape: int, t: int, disp: int) -> bool:
                 else:
                     if not (isinstance(g, UUID) and g.bytes == u):
                         why = "AuxData entry naming no attached node is not a plain UUID"
+            if why is None:
+                # the same file loaded a second time: its tables resolve to ITS nodes, also right after the first IR's were read
+                irb = gtirb.IR._from_protobuf(base_message(aux=[(lv, "t", sh, data)]), None)
+                hb = irb if lv == "ir" else [m for m in irb.modules if m.uuid == U(2)][0]
+                vb = hb.aux_data["t"].data
+                treeb = contained(irb)
+                nodeb = treeb.get(UUID(bytes=u))
+                if sh == "UUID":
+                    gotb = [vb]
+                elif sh == "Offset":
+                    gotb = [vb.element_id]
+                elif sh in ("sequence<UUID>", "set<UUID>"):
+                    gotb = list(vb)
+                else:
+                    gotb = list(vb.keys()) + [x.element_id for x in vb.values()]
+                for g in gotb:
+                    if nodeb is not None and g is not nodeb:
+                        why = "second load of the same file: AuxData entry is not the second IR's own node"
+                    if nodeb is None and not (isinstance(g, UUID) and g.bytes == u):
+                        why = "second load: entry naming no attached node is not a plain UUID"
     if why:
         return fail("aux %s at %s -> %s: %s" % (sh, lv, tgt, why))
     count("scenarios")
@@ -578,7 +602,8 @@ UUID_FIELDS = ["ir", "modA", "secA", "biA", "cbA", "dbA", "pxA", "syA1", "modB",
 UUID_VALUES = ["cbA", "dbA", "pxA", "syA1", "syA2", "secA", "biA", "modA", "ir", "modB", "secB", "biB", "cbB", "syB", "unknown", "len0", "len15", "len17"]
 OTHER_FAULTS = ["none", "size_lt_contents", "block_no_kind", "expr_no_kind", "enum_isa", "enum_ff", "enum_bo", "enum_flag", "enum_dm", "enum_edge",
                 "enum_attr", "dup_module_entry", "empty_name", "entry_other_module", "referent_later_module", "contents_eq_size", "vertices_garbage",
-                "symbol_both_payloads", "two_sections_same_interval", "version_zero"]
+                "symbol_both_payloads", "two_sections_same_interval", "version_zero", "dup_proxy_later_module", "dup_symbol_later_module",
+                "dup_proxy_same_module", "dup_section_later_module"]
 
 
 def _uv(name):
@@ -608,7 +633,7 @@ def _set_uuid(msg, field, value):
     elif field == "pxA":
         a.proxies[0].uuid = value
     elif field == "syA1":
-        a.symbols[0].uuid = value
+        a.symbols[1].uuid = value
     elif field == "modB":
         b.uuid = value
     elif field == "secB":
@@ -650,21 +675,32 @@ def _apply_other(msg, fault, num):
         msg.modules.add().CopyFrom(a)
     elif fault == "empty_name":
         a.name = ""
-        a.symbols[0].name = ""
+        a.symbols[1].name = ""
     elif fault == "entry_other_module":
         b.entry_point = ub("cbA")
     elif fault == "referent_later_module":
-        a.symbols[0].referent_uuid = ub("cbB")
+        a.symbols[1].referent_uuid = ub("cbB")
     elif fault == "vertices_garbage":
         msg.cfg.vertices.append(b"xyz")
     elif fault == "symbol_both_payloads":
-        a.symbols[1].value = 5                       # one-of: the later assignment wins in the message
+        a.symbols[2].value = 5                       # one-of: the later assignment wins in the message
     elif fault == "two_sections_same_interval":
         s2 = a.sections.add()
         s2.uuid = UUID(int=650).bytes
         s2.byte_intervals.add().CopyFrom(bi)
     elif fault == "version_zero":
         msg.version = 0
+    elif fault == "dup_proxy_later_module":
+        b.proxies.add().uuid = U(30).bytes            # same kind, same UUID as an unreferenced proxy of the earlier module
+    elif fault == "dup_symbol_later_module":
+        y = b.symbols.add()
+        y.uuid = U(31).bytes
+        y.name = "again"
+    elif fault == "dup_proxy_same_module":
+        a.proxies.add().uuid = U(30).bytes
+    elif fault == "dup_section_later_module":
+        s3 = msg.modules[2].sections.add()
+        s3.uuid = ub("secB")
 
 
 def run_fault(field, value, fault, num):
